@@ -230,6 +230,18 @@ def refusals(ctx):
             (f"10 GOTO {n}\n{n} END", want, f"line {n} referenced"),
             (f"10 IF A = 1 THEN B = 2\n{n} REM X", want, f"line {n} after an IF without jump"),
         ]
+    # jumps to lines that do not exist, above and below the 32699 limit, from every jump-bearing statement kind
+    for t in (55, 32699, 32700, 33000, 40000, 63999):
+        cases += [
+            (f"10 GOTO {t}", "refused", f"line {t} missing: GOTO"),
+            (f"10 GOSUB {t}\n20 END", "refused", f"line {t} missing: GOSUB"),
+            (f"10 IF X = 1 THEN {t}", "refused", f"line {t} missing: THEN"),
+            (f"10 IF X = 1 THEN 10 ELSE {t}", "refused", f"line {t} missing: ELSE"),
+            (f"10 ON X GOTO 20 , {t}\n20 END", "refused", f"line {t} missing: ON GOTO"),
+            (f"10 ON ERR GOTO {t}\n20 END", "refused", f"line {t} missing: ON ERR"),
+            (f"10 ON BRK GOTO {t}\n20 END", "refused", f"line {t} missing: ON BRK"),
+            (f"10 ON ERR GOTO 20 : GOTO {t}\n20 END", "refused", f"line {t} missing: GOTO beside a handler"),
+        ]
     for src, want, what in cases:
         is_line = what.startswith("line ")
         for kw in (dict(), dict(filter_unused_linenum=True), dict(add_suffix=False), dict(filter_unused_linenum=True, add_suffix=False)):
@@ -244,6 +256,28 @@ def refusals(ctx):
                 ctx.violation(f"line-limit:{re.sub('[0-9]+', 'N', what)}:{'ok' if want == 'ok' else 'refusal'}-expected", f"{src!r} {kw}: expected {want}, got {o[0]} {o[1] if o[0] != 'ok' else ''}", {"source": src, "options": dict(kw, add_standard_prefix=False, skip_procedure_headers=True) if False else None})
             else:
                 ctx.violation(f"handler-rule:{what}", f"{src!r}: expected {want}, got {o[0]} {o[1] if o[0] != 'ok' else ''}", {"source": src})
+
+def line_zero_with_prefix(ctx):
+    """the label rules with the generated prologue in front of the program (the command line's setting): an
+    unreferenced line 0 loses its label, a referenced one keeps it, whatever else is emitted before it"""
+    progs = [("unreferenced", '0 X = 1\n10 GOTO 10', {10}, {10}), ("referenced", '0 X = 1\n10 GOTO 0', {0, 10}, {0}),
+             ("unreferenced-no-jump", '0 X = 1\n10 Y = 2', {10}, set()), ("referenced-by-then", '0 X = 1\n10 IF X = 1 THEN 0', {0, 10}, {0})]
+    for name, src, want_nofilter, want_filter in progs:
+        for flt in (False, True):
+            for extra in (dict(), dict(initialize_vars=True), dict(add_suffix=False)):
+                o = classify(src + "\n", plain=False, add_standard_prefix=True, skip_procedure_headers=True, filter_unused_linenum=flt, **extra)
+                ctx.stats["programs"] += 1
+                ctx.stats["obligations"] += 1
+                if o[0] != "ok":
+                    ctx.violation(f"prefix-labels:{name}:not-converted", f"{src!r}: {o}", {"source": src})
+                    continue
+                got = set(labels_of(o[1])) - {32700}
+                want = want_filter if flt else want_nofilter
+                if got == want:
+                    ctx.stats["identity"] += 1
+                else:
+                    ctx.violation(f"prefix-labels:{name}:{'filter' if flt else 'nofilter'}:missing={sorted(want - got)}:extra={sorted(got - want)}", f"{src!r} with the standard prefix: labels {sorted(got)}, expected {sorted(want)}", {"source": src, "options": dict(add_standard_prefix=True, filter_unused_linenum=flt, **extra)})
+
 
 def dispatcher(ctx):
     """run the emitted 32700 block with a symbolic error number; handler targets range over line 0, 30 and 40"""
@@ -334,6 +368,7 @@ def run(tier):
         ctx.sample({"form": r["job"][0], "targets": list(r["job"][1]), "source": r["src"]})
     line_number_threshold(ctx)
     refusals(ctx)
+    line_zero_with_prefix(ctx)
     dispatcher(ctx)
     ctx.add_solver_stats(smt.STATS.export())
     ctx.extra["solver"] = {"z3": smt.z3_version()}
